@@ -12,26 +12,32 @@ BUILT_VS_PLANNED = """
 
 Built and run on every check: extraction from `/repo/src/h2/*.py` as text, the
 symbolic interpreter with decision-replay path enumeration, sidecar contracts,
-modular calls against callee contracts, `GI` on normal and exceptional exits,
-the dependency models, z3 with cvc5 on `unknown`, the vacuity check per
-function, one canary per function that must be refuted, known-finding matching,
-state-injection replay under `/venv/bin/python` (real constructors for
-`H2Connection` / `H2Configuration` / state machine / buffers, then exactly the
-modelled fields), bounded stand-ins reported separately, evidence.
+modular calls against callee contracts (the outcomes of a contract are explored
+as nondeterministic alternatives), `GI` on normal and exceptional exits, the
+dependency models, z3 (retried on other seeds) with cvc5 on `unknown`, the
+vacuity check per function and per loop invariant, one canary per function that
+must be refuted, known-finding matching, state-injection replay under
+`/venv/bin/python`, bounded stand-ins reported separately, the report cache
+(section 10.6), evidence.  Added in the third round (section 10): the inductive
+loop rule (`receive_data`, every header pipeline stage), self-recursion through
+the function's own contract with a `decreases` measure (`FrameBuffer.__next__`),
+functional summaries for modular callees, z3 lemmas, the layer-2 string /
+header-field model.
 
-Planned in §2.8 / §3.2 / §3.5 and **not built**: the CPython cross-check of the
+Planned in section 2.8 / 3.2 / 3.5 and **not built**: the CPython cross-check of the
 engine's transition relation, the in-memory mutant catalogue, run-time contract
-monitoring of the test suite, the history search of §3.2(2) (a violation whose
+monitoring of the test suite, the history search of section 3.2(2) (a violation whose
 state-injection replay does not reproduce is reported with
-`no-failing-input-found`), the both-solvers-on-every-obligation thorough mode,
-the obligation cache.  The **thorough tier differs from quick only in the
-per-obligation solver budget** (60 s instead of 10 s); it explores the same
-paths and bounds.  What stands in for the mutant catalogue is `seeded/`: %d
-stored property-breaking changes (patch + native demo that exits 1 with the
-change and 0 without; the 1403 baseline tests pass with each), re-run with
-`tools/seed_recheck.py`; `seeded/<id>/meta.json` records which check reported
-each one.  Currently reported by their own property's check: %s; not
-reported (no contract reaches the changed function yet): %s.
+`no-failing-input-found`), the both-solvers-on-every-obligation thorough mode.
+The **thorough tier differs from quick only in the per-obligation solver
+budget** (60 s instead of 10 s); it explores the same paths and bounds.  What
+stands in for the mutant catalogue is `seeded/`: %d stored property-breaking
+changes (patch + native demo that exits 1 with the change and 0 without; the
+1403 baseline tests pass with each; all but the marked reintroductions were
+written by sub-agents that saw only the property text), re-run with
+`tools/seed_run.py` in scratch worktrees (never in `/repo`);
+`seeded/<id>/meta.json` records which check reported each one.  Reported by
+their own property's check: %s; not reported: %s (section 10.7 says why).
 """
 
 
@@ -91,9 +97,14 @@ function is still a VIOLATION.
     out.append(BUILT_VS_PLANNED % seed_status())
     p = os.path.join(ROOT, 'DESIGN.md')
     s = open(p).read()
+    tail = ''
+    TAIL_MARK = '---------------------------------------------------------------------------\n\n## 10. '
+    if TAIL_MARK in s:
+        tail = '\n\n' + s[s.index(TAIL_MARK):].rstrip('\n') + '\n'
+        s = s[:s.index(TAIL_MARK)]
     if MARK in s:
         s = s[:s.index(MARK)]
-    open(p, 'w').write(s.rstrip('\n') + '\n\n' + '\n'.join(out))
+    open(p, 'w').write(s.rstrip('\n') + '\n\n' + '\n'.join(out).rstrip('\n') + tail)
 
 
 if __name__ == '__main__':
